@@ -1460,6 +1460,36 @@ def oracle_C19(case):
             return None
     except Exception:
         return None
+    if isinstance(kind, tuple) and kind and kind[0] == 'big':
+        # long script: str, text stream and UTF-8 bytes must give the same tokens and the same statements
+        from pyvc import domain
+        from sqlparse import lexer
+        import sqlparse
+        big, units = domain.big_script(kind[1], salt=kind[1] % 5)
+        big = text + big
+        try:
+            ref = list(lexer.tokenize(big))
+            for nm, mk in (('StringIO', lambda: io.StringIO(big)), ('utf-8 bytes', lambda: big.encode('utf-8')),
+                           ('TextIOWrapper', lambda: io.TextIOWrapper(io.BytesIO(big.encode('utf-8')), encoding='utf-8', newline=''))):
+                got = list(lexer.tokenize(mk()))
+                if got != ref:
+                    i = next((j for j, (a, b) in enumerate(zip(got, ref)) if a != b), min(len(got), len(ref)))
+                    return {'what': 'long-script-tokens-differ:' + nm, 'input': ('big', kind[1]),
+                            'observed': _clip(repr(got[i:i + 2]), 200), 'expected': _clip(repr(ref[i:i + 2]), 200)}
+            want = sqlparse.split(big)
+            for nm, mk in (('StringIO', lambda: io.StringIO(big)), ('utf-8 bytes', lambda: big.encode('utf-8'))):
+                got = sqlparse.split(mk())
+                if got != want:
+                    return {'what': 'long-script-split-differs:' + nm, 'input': ('big', kind[1]),
+                            'observed': '%d statements' % len(got), 'expected': '%d statements' % len(want)}
+            ps = [str(s_) for s_ in sqlparse.parsestream(io.StringIO(big))]
+            pp = [str(s_) for s_ in sqlparse.parse(big)]
+            if ps != pp:
+                return {'what': 'long-script-parsestream-vs-parse', 'input': ('big', kind[1]),
+                        'observed': '%d statements' % len(ps), 'expected': '%d statements' % len(pp)}
+        except Exception as e:
+            return {'what': 'long-script-' + _exc(e), 'input': ('big', kind[1]), 'observed': _clip(str(e)), 'expected': 'a result'}
+        return None
     if isinstance(kind, tuple) and kind and kind[0] == 'cli':
         try:
             return _c19_cli(text, kind)
@@ -1561,6 +1591,9 @@ def cases_C19(tier, seed):
             sp = rnd.choice((' ', ' ', '', '\n'))
             yield sp.join(rnd.choice(_C19_SOUP) for _ in range(k))
 
+    for n in ((9000, 70000, 140000) if tier == 'quick' else (5000, 9000, 17000, 33000, 70000, 140000, 300000, 1100000)):
+        yield ('', ('big', n))
+        yield ('select 1 /* \u00e9 */;\n', ('big', n))
     ci = 0
     for t in lib():
         yield (t, 'lib')
